@@ -19,7 +19,7 @@ From Qeep Require Import Model.Scalar Model.Nd Model.Fill Model.Data Model.Valid
   Model.Backprop Model.Components.
 From Qeep Require Import Proofs.NdP Proofs.ElemP Proofs.BroadcastP Proofs.ArithP Proofs.TrackP Proofs.CompP
   Proofs.BackpropP Proofs.FcP Proofs.GradFcP.
-From Qeep Require Import Spec.RScalar Spec.ScalarDeriv Spec.VjpSpec Proofs.VjpElemP Proofs.GradLossP Proofs.GradActP
+From Qeep Require Import Spec.RScalar Spec.ScalarDeriv Spec.VjpSpec Proofs.VjpElemP Proofs.VjpGatherP Proofs.GradLossP Proofs.GradActP
   Proofs.GradChainP.
 Import ListNotations.
 Local Open Scope nat_scope.
